@@ -405,7 +405,7 @@ def recursive_wiring(ctx, ev):
     for e, g in _with_guards(o.effects):
         if isinstance(e, App) and e.op == "eff:call" and isinstance(e.args[0], App) and e.args[0].op == "call" \
                 and isinstance(e.args[0].args[0], Ref) and e.args[0].args[0].obj.name == "_sign":
-            omit_ok = g == ((App("not", (A("omit_signing"),)), True),)
+            omit_ok = g == ((A("omit_signing"), False),)
         if isinstance(e, App) and e.op == "eff:store" and g:
             store_unguarded = False
     omit_ok = omit_ok and store_unguarded
